@@ -132,6 +132,27 @@ func check(c Case) error {
 			}
 		}
 	}
+	// the other strand of the same molecule, as a database may store it (at another origin when circular): directly after
+	// the calls above, it is digested to what the geometry gives on that spelling
+	other := ref.RevComp(c.Seq)
+	if c.Circular && len(other) > 1 {
+		r := int(c.CaseMask % uint64(len(other)))
+		other = other[r:] + other[:r]
+	}
+	if wantOther, LO := refclone.Digest(other, c.Circular, c.Enzyme); LO.Valid {
+		if !(c.Circular && exclude && refclone.InDoublingLossZone(wantOther, LO.N, c.Enzyme, len(c.Enzyme.Site), 0)) {
+			got, err := cut(c, applyCase(other, c.CaseMask>>3))
+			if err != nil {
+				return err
+			}
+			if !refclone.SameMultiset(got, wantOther) {
+				return vk.Errf("%s (skip %d, overhang %d) on the %s other strand %q, digested after the strand %q: got %s, geometry gives %s", c.Enzyme.Site, c.Enzyme.Skip, c.Enzyme.OverhangLen,
+					map[bool]string{true: "circular", false: "linear"}[c.Circular], other, c.Seq, refclone.Show(got), refclone.Show(wantOther))
+			}
+		}
+	} else {
+		vk.Count("other strand's layout outside the domain (not judged): "+LO.Why, 1)
+	}
 	return nil
 }
 
